@@ -224,6 +224,20 @@ CHECKS = {
               "by zero entries; a complex right-hand side for a real sparse matrix is outside LinSolve's documented inputs"),
         technique="TLA+ exact partitioned-system identities checked by TLC; replay on the four linear-system modules",
         design="9/C07"),
+    "C11": dict(
+        text=("Eigen.tla constructs symmetric pencils exactly: A = L Q D Q' L', B = L L' with a Householder reflector Q from an "
+              "integer vector, a distinct integer spectrum D and a unit lower triangular integer L (L = I: standard problem), "
+              "and defines the expected output: ascending eigenvalues, B-normalised eigenvectors L^-T Q e_i with non-negative "
+              "mean, and for the sparse path the nmodes eigenvalues closest to the shift sigma. TLC checks A q = lambda B q, "
+              "q'Bq = 1, B-orthogonality and the ordering exactly in rationals on every pencil (n = 3 and 5). Dense (standard "
+              "and generalised) and sparse (nmodes 2-3, several shifts) EigenSolve are compared with the exact values. [O] for "
+              "complex Hermitian, real and complex general, complex symmetric matrices (standard and generalised) and FE "
+              "stiffness/mass pencils with boundary conditions on the sparse path, the residual, the bilinear normalisation, "
+              "ordering, sign, count and the closest-to-shift selection are evaluated numerically."),
+        note=(TLC_BASE + "; eigenvalues are distinct and eigenvectors with zero mean (arbitrary sign) are excluded; the classes "
+              "without an exact rational construction are decided by numerical observation predicates only"),
+        technique="TLA+ exact pencil construction checked by TLC; comparison of EigenSolve with exact eigenpairs; numeric observations",
+        design="9/C11"),
 }
 
 
